@@ -189,6 +189,15 @@ def safeguard(repo, run):
         a_v = {a.split("@")[0] for a in tree_atoms(cv)}
         common = {"0 Eq fb", "0 Eq fs"} | {a for a in a_s if "abs" in a}
         okc = common <= a_s and common <= a_v
+        # the two stopping tests are the SAME boolean function of the same arithmetic tests (the vector solver tracks 'not yet converged', so either polarity is
+        # accepted, consistently): an extra disjunct in one of them (stop on a short last step, on a small residual, ...) ends that solver with a bracket wider than tol
+        if okc:
+            okc = a_s == a_v
+            if okc and len(a_s) <= 12:
+                cs0, cv0 = _strip_versions(cs), _strip_versions(cv)
+                ats = sorted(set(tree_atoms(cs0)) | set(tree_atoms(cv0)))
+                rows = [(eval_bool(cs0, dict(zip(ats, vals))), eval_bool(cv0, dict(zip(ats, vals)))) for vals in itertools.product((False, True), repeat=len(ats))]
+                okc = all(x == y for x, y in rows) or all(x != y for x, y in rows)
         run.judged(rid, "convergence atoms scalar %s / vector %s" % (sorted(a_s), sorted(a_v)), ok=okc)
         if not okc:
             run.report("C14.2", OPT, loop_v, "the two solvers do not stop on the same convergence tests: scalar %s, vector %s" % (sorted(a_s), sorted(a_v)),
